@@ -1,5 +1,5 @@
 //! Type-level RC5 instantiations (DESIGN §2.1): W x R x B grid plus the six published vector triples.
-use crate::subjects::*;
+use vcore::subjects::*;
 use cipher::consts::*;
 
 macro_rules! one {
